@@ -229,7 +229,10 @@ def run_case(case):
                          'sig': {'place': kind, 'class': cls},
                          'detail': '%d code point(s) of class %r in %s break the report, e.g. U+%04X: %s' % (len(lst), cls, kind, cp, why),
                          'case': [kind, cp, cp + 1]})
-        return {'evals': evals, 'nontrivial': len(cps), 'violations': viol, 'outcome': kind}
+        # one case = one code point decided (a clean block run decides all of
+        # its code points at once; a failing block is bisected)
+        return {'evals': len(cps), 'nontrivial': len(cps), 'violations': viol,
+                'outcome': kind, 'counters': {'runner_executions': evals}}
     if kind == 'pairs':
         sp = b
         for c2 in sp:
@@ -238,7 +241,8 @@ def run_case(case):
             evals += 1
             for clause, detail in check_files(res, files, 'U+%04X,U+%04X' % (a, c2)):
                 viol.append({'clause': clause, 'sig': {'place': 'pairs', 'class': cp_class(a) + '+' + cp_class(c2)}, 'detail': detail})
-        return {'evals': evals, 'nontrivial': len(sp), 'violations': viol, 'outcome': kind}
+        return {'evals': len(sp), 'nontrivial': len(sp), 'violations': viol, 'outcome': kind,
+                'counters': {'runner_executions': evals}}
     if kind == 'str':
         text = STRINGS[a]
         place = b
@@ -266,4 +270,5 @@ def run_case(case):
         vs += structure_viol(spec, res, files, rep, why)
     for clause, detail in vs:
         viol.append({'clause': clause, 'sig': dict(sig, strno=(a if kind == 'str' else None)), 'detail': detail})
-    return {'evals': 1, 'nontrivial': 1, 'violations': viol, 'outcome': kind}
+    return {'evals': 1, 'nontrivial': 1, 'violations': viol, 'outcome': kind,
+            'counters': {'runner_executions': 1}}
